@@ -167,6 +167,8 @@ func (i *vfIdP) record(kind string, r *http.Request) *vfIdPEvent {
 	return ev
 }
 
+func (i *vfIdP) evSet(ev *vfIdPEvent, f func()) { i.mu.Lock(); f(); i.mu.Unlock() }
+
 func (i *vfIdP) Events() []vfIdPEvent {
 	i.mu.Lock()
 	defer i.mu.Unlock()
@@ -241,7 +243,7 @@ func (i *vfIdP) serve(w http.ResponseWriter, r *http.Request) {
 	case "userinfo":
 		i.userinfo(w, r, ev)
 	default:
-		ev.Status = 404
+		i.evSet(ev, func() { ev.Status = 404 })
 		http.NotFound(w, r)
 	}
 }
@@ -254,7 +256,7 @@ func (i *vfIdP) scripted(w http.ResponseWriter, r *http.Request, ev *vfIdPEvent,
 		}
 	}
 	if rep.Reset {
-		ev.Status = -1
+		i.evSet(ev, func() { ev.Status = -1 })
 		if hj, ok := w.(http.Hijacker); ok {
 			c, _, err := hj.Hijack()
 			if err == nil {
@@ -275,21 +277,21 @@ func (i *vfIdP) scripted(w http.ResponseWriter, r *http.Request, ev *vfIdPEvent,
 	if st == 0 {
 		st = 200
 	}
-	ev.Status = st
-	ev.Note = "scripted"
+	i.evSet(ev, func() { ev.Status = st })
+	i.evSet(ev, func() { ev.Note = "scripted" })
 	w.WriteHeader(st)
 	_, _ = w.Write(rep.Body)
 }
 
 func (i *vfIdP) writeJSON(w http.ResponseWriter, ev *vfIdPEvent, status int, v interface{}) {
 	w.Header().Set("Content-Type", "application/json")
-	ev.Status = status
+	i.evSet(ev, func() { ev.Status = status })
 	w.WriteHeader(status)
 	_ = json.NewEncoder(w).Encode(v)
 }
 
 func (i *vfIdP) oauthErr(w http.ResponseWriter, ev *vfIdPEvent, code, desc string) {
-	ev.Note = code + ": " + desc
+	i.evSet(ev, func() { ev.Note = code + ": " + desc })
 	i.writeJSON(w, ev, 400, map[string]string{"error": code, "error_description": desc})
 }
 
@@ -398,7 +400,7 @@ func (i *vfIdP) issue(w http.ResponseWriter, ev *vfIdPEvent, grant string, ar *v
 	if f := cf.TokenResponseMutate; f != nil {
 		f(grant, resp)
 	}
-	ev.Note = "issued " + at
+	i.evSet(ev, func() { ev.Note = "issued " + at })
 	i.writeJSON(w, ev, 200, resp)
 }
 
@@ -484,7 +486,7 @@ func (i *vfIdP) userinfo(w http.ResponseWriter, r *http.Request, ev *vfIdPEvent)
 	id, ok := i.atIdent[at]
 	i.mu.Unlock()
 	if !ok {
-		ev.Note = "unknown access token"
+		i.evSet(ev, func() { ev.Note = "unknown access token" })
 		i.writeJSON(w, ev, 401, map[string]string{"error": "invalid_token"})
 		return
 	}
